@@ -49,8 +49,9 @@ func coqEvents(events []ev) ([]string, string) {
 		return k
 	}
 	type pend struct {
-		idx int
-		cs  []int
+		idx  int
+		cs   []int
+		join int // >= 0: the sequence started at a join whose branch failed
 	}
 	pending := map[int64]*pend{}
 	var out []string
@@ -126,7 +127,7 @@ func coqEvents(events []ev) ([]string, string) {
 			if pending[e.gid] != nil {
 				problem = "nested failure sequence"
 			}
-			pending[e.gid] = &pend{idx: len(out)}
+			pending[e.gid] = &pend{idx: len(out), join: -1}
 			out = append(out, "")
 		case "reactive.compute.fail":
 			if p := pending[e.gid]; p != nil {
@@ -138,12 +139,39 @@ func coqEvents(events []ev) ([]string, string) {
 			if pending[e.gid] == nil {
 				problem = "purgeCache from a non-harness goroutine outside the retry path"
 			}
-		case "reactive.run.failed", "reactive.run.retry":
+		case "reactive.run.failed", "reactive.run.retry", "branch.fail":
 			if p := pending[e.gid]; p != nil {
-				out[p.idx] = fmt.Sprintf("ETask %d (KFail %s %s)", g(e.gid), natList(p.cs), b(e.kind == "reactive.run.retry"))
+				retry := e.kind == "reactive.run.retry" || (e.kind == "branch.fail" && e.f1)
+				if p.join >= 0 {
+					out[p.idx] = fmt.Sprintf("ETask %d (KJoinFail %d %s)", g(e.gid), p.join, natList(p.cs))
+				} else {
+					out[p.idx] = fmt.Sprintf("ETask %d (KFail %s %s)", g(e.gid), natList(p.cs), b(retry))
+				}
 				delete(pending, e.gid)
 			} else {
-				problem = "run.failed without a failure decision"
+				problem = "run.failed / branch.fail without a failure decision"
+			}
+		case "keylock":
+			t(fmt.Sprintf("KKeyLock %d", e.b))
+		case "keyunlock":
+			if pending[e.gid] == nil { // on the error path the deferred unlocks belong to the Fail step
+				t(fmt.Sprintf("KKeyUnlock %d", e.b))
+			}
+		case "fork":
+			t(fmt.Sprintf("KFork %d %d", e.a, e.b))
+		case "branch.begin":
+			t(fmt.Sprintf("KBranchBegin %d %d", e.a, e.b))
+		case "branch.end":
+			t(fmt.Sprintf("KBranchEnd %d", e.a))
+		case "join":
+			if e.f1 {
+				if pending[e.gid] != nil {
+					problem = "nested failure sequence"
+				}
+				pending[e.gid] = &pend{idx: len(out), join: e.a}
+				out = append(out, "")
+			} else {
+				t(fmt.Sprintf("KJoin %d", e.a))
 			}
 		default:
 			problem = "unknown event kind " + e.kind
@@ -193,6 +221,7 @@ var clauses = map[string]map[string]bool{
 // Main is the whole command; prop is "C04" or "C08".
 func Main(prop string) {
 	o := vh.ParseFlags()
+	HooksKeyLock = probeKeyLock()
 	run := vh.NewRun(prop, o)
 	run.Rule = "a case = dependency tree (1-3 rerunners, 1-3 slots whose resources are shared, 0-3 nested reactive.Cache levels, InvalidateAfter timers, failing/retrying computes) + 2-11 injections (Strobe/Invalidate/Stop/PurgeCache) + 0-3 scripted pauses + perturbation level; non-trivial = at least one re-run happened (computes > rerunners) and at least one invalidation reached a computation; distinct by the case's structure"
 	r := vh.NewRng(o.Seed*2 + map[string]uint64{"C04": 0, "C08": 1}[prop])
@@ -286,7 +315,21 @@ func Main(prop string) {
 			}
 		}
 		comps, relStarted := map[int]bool{}, map[int]bool{}
+		lockers := map[[2]int]int64{}
+		if res.Kinds["fork"] > 0 {
+			run.Hist("goroutines-inside-compute")
+		}
 		for _, e := range res.Events {
+			if e.kind == "keylock" {
+				k := [2]int{e.a, e.b}
+				if g0, ok := lockers[k]; ok && g0 != e.gid {
+					run.Hist("window:cache-key-locked-by-different-goroutines")
+				}
+				lockers[k] = e.gid
+			}
+			if e.kind == "branch.fail" {
+				run.Hist("window:branch-goroutine-returned-error")
+			}
 			switch {
 			case e.kind == "reactive.compute.begin":
 				comps[e.a] = true
@@ -339,7 +382,7 @@ func Main(prop string) {
 		}
 	}
 	flush(len(cases))
-	run.Extra = map[string]interface{}{"total_events": totalEvents}
+	run.Extra = map[string]interface{}{"total_events": totalEvents, "hooks_key_lock": HooksKeyLock}
 	keys := make([]string, 0, len(run.Histogram))
 	for k := range run.Histogram {
 		keys = append(keys, k)
